@@ -1,5 +1,6 @@
 #!/usr/bin/env python3
-"""Evaluate seeded changes (written by independent sub-agents) against the checks.
+"""(benign mode: set BENIGN=1 — the patch must keep the property: its check test passes with and without it, and ANY report by a check is a false alarm)
+Evaluate seeded changes (written by independent sub-agents) against the checks.
 
 usage: seed_eval.py <seed-dir>...      each <seed-dir> holds patch.diff, demo_test.go, meta.json
 
@@ -89,6 +90,7 @@ def confirm(seed, wt):
         res["missing"] = missing
     ok1, out1 = run_demo(wt, seed, race)
     res["demo_fails_with_change"] = not ok1
+    res["check_passes_with_change"] = ok1
     res["demo_out_changed"] = out1[-600:]
     sh("git checkout -q -- . && git clean -fdq -e _seed", cwd=wt)
     return res
